@@ -108,13 +108,13 @@ fn serialize_list(arr: &[Primitive], out: &mut impl io::Write) -> Result<()> {
 
 pub fn serialize_name(s: &str, out: &mut impl io::Write) -> Result<()> {
     write!(out, "/")?;
-    for b in s.chars() {
+    for &b in s.as_bytes() {
         match b {
-            '\\' | '(' | ')' => write!(out, r"\")?,
-            c if c > '~' => panic!("only ASCII"),
-            _ => ()
+            // regular characters stand for themselves; '#' introduces an escape
+            b'!' ..= b'~' if !b"()<>[]{}/%#".contains(&b) => out.write_all(&[b])?,
+            // white-space, delimiters, '#' and everything outside printable ASCII: #xx (7.3.5)
+            _ => write!(out, "#{:02x}", b)?,
         }
-        write!(out, "{}", b)?;
     }
     Ok(())
 }
@@ -210,7 +210,8 @@ impl Dictionary {
     fn serialize(&self, out: &mut impl io::Write) -> Result<()> {
         writeln!(out, "<<")?;
         for (key, val) in self.iter() {
-            write!(out, "{} ", key)?;
+            serialize_name(key, out)?;
+            write!(out, " ")?;
             val.serialize(out)?;
             writeln!(out)?;
         }
